@@ -661,7 +661,10 @@ func runL2(c Case, ev *evid.Collector) (vs []*evid.Violation, inconclusive strin
 	// ---- (4) + (5) on sequential operations
 	if sequentialOp(c.Op) {
 		lo := logOpts{sequential: true, groups: l2Groups(es),
-			backsOff: func(e *rm.Entry) bool { return l2BackoffClasses[e.Class] },
+			backsOff: func(e *rm.Entry) bool {
+				// requests that are certainly not sent with "ignore errors"
+				return l2BackoffClasses[e.Class] || e.Class == "tags-list" || (e.Class == "referrers" && strings.Contains(e.RawQuery, "page="))
+			},
 			contin:   func(e *rm.Entry) bool { return strings.Contains(e.RawQuery, "last=") || strings.Contains(e.RawQuery, "page=") }}
 		for _, v := range w.analyseLog(es, lo) {
 			add(v)
